@@ -106,4 +106,27 @@ def saturatingFromLimbsSlice (bits : Nat) (slice : List Nat) : Res :=
   | some (_, true) => .ok (max bits)
   | none => .panic
 
+/-! ## ill-formed `(BITS, LIMBS)` pairs
+
+`impl Uint<BITS, LIMBS> { pub const LIMBS: usize = { let limbs = nlimbs(BITS); assert!(LIMBS == limbs, ..); limbs } }`
+Evaluating the associated const fails (a compile-time error) unless the parameter `LIMBS` is `nlimbs(BITS)`.
+Rust evaluates an associated const whenever a monomorphised body (or a const initialiser) mentions it, so a
+constant/constructor is rejected for an ill-formed type exactly when its body transitively mentions
+`Self::LIMBS` — the "guard graph" extracted from the source into `Ruint/Gen/GuardGraph.lean`. -/
+
+/-- evaluation of the associated const `Self::LIMBS`; `none` = the compile-time assertion fails. -/
+def limbsConst (bits limbs : Nat) : Option Nat :=
+  if limbs = nlimbs bits then some (nlimbs bits) else none
+
+/-- nodes reachable from the set `s` within `fuel` rounds along `edges` (adjacency lists by index). -/
+def reachSet (edges : List (List Nat)) : Nat → List Nat → List Nat
+  | 0, s => s
+  | fuel + 1, s =>
+    let next := ((s.flatMap fun i => edges.getD i []).filter fun j => !s.contains j).eraseDups
+    if next.isEmpty then s else reachSet edges fuel (s ++ next)
+
+/-- `target` is reachable from `start` (transitively mentioned by its body). -/
+def reaches (edges : List (List Nat)) (start target : Nat) : Bool :=
+  (reachSet edges edges.length [start]).contains target
+
 end Ruint.Canon
